@@ -396,38 +396,51 @@ def o_to_pgl(A, bilinear_form=np.diag([-1, 1, 1])):
     # entry with largest absolute value positive and recover the other
     # entries from the mixed terms.
 
-    # TODO: make this vector-safe, right now the docstring is a lie
-    squares = [A_d[2, 2], A_d[2, 0], A_d[0, 2], A_d[0, 0]]
-    if np.sum(squares) < 0:
-        A_d = -A_d
-        squares = [-sq for sq in squares]
+    # the recovery below is done separately for each matrix in the array
+    batch_shape = A_d.shape[:-2]
+    A_d = A_d.reshape((-1, 3, 3))
 
-    pivot = np.argmax(np.abs(squares))
-    pivot_val = np.sqrt(np.abs(squares[pivot]))
+    squares = np.stack([A_d[:, 2, 2], A_d[:, 2, 0],
+                        A_d[:, 0, 2], A_d[:, 0, 0]], axis=-1)
+    negative = np.sum(squares, axis=-1) < 0
+    A_d = np.where(negative[:, np.newaxis, np.newaxis], -A_d, A_d)
+    squares = np.where(negative[:, np.newaxis], -squares, squares)
 
-    if pivot == 0:
-        a = pivot_val
-        b = A_d[2, 1] / a
-        c = A_d[1, 2] / (2 * a)
-        d = (A_d[1, 1] - b * c) / a
-    elif pivot == 1:
-        b = pivot_val
-        a = A_d[2, 1] / b
-        d = A_d[1, 0] / (2 * b)
-        c = (A_d[1, 1] - a * d) / b
-    elif pivot == 2:
-        c = pivot_val
-        a = A_d[1, 2] / (2 * c)
-        d = A_d[0, 1] / c
-        b = (A_d[1, 1] - a * d) / c
-    else:
-        d = pivot_val
-        c = A_d[0, 1] / d
-        b = A_d[1, 0] / (2 * d)
-        a = (A_d[1, 1] - b * c) / d
+    pivot = np.argmax(np.abs(squares), axis=-1)
 
-    return np.array([[a, b],
-                     [c, d]])
+    # rows of this array are the entries a, b, c, d
+    entries = np.empty((4, len(A_d)),
+                       dtype=np.result_type(A_d.dtype, np.float64))
+
+    for i in range(4):
+        with_pivot = (pivot == i)
+        A_p = A_d[with_pivot]
+        pivot_val = np.sqrt(np.abs(squares[with_pivot, i]))
+
+        if i == 0:
+            a = pivot_val
+            b = A_p[:, 2, 1] / a
+            c = A_p[:, 1, 2] / (2 * a)
+            d = (A_p[:, 1, 1] - b * c) / a
+        elif i == 1:
+            b = pivot_val
+            a = A_p[:, 2, 1] / b
+            d = A_p[:, 1, 0] / (2 * b)
+            c = (A_p[:, 1, 1] - a * d) / b
+        elif i == 2:
+            c = pivot_val
+            a = A_p[:, 1, 2] / (2 * c)
+            d = A_p[:, 0, 1] / c
+            b = (A_p[:, 1, 1] - a * d) / c
+        else:
+            d = pivot_val
+            c = A_p[:, 0, 1] / d
+            b = A_p[:, 1, 0] / (2 * d)
+            a = (A_p[:, 1, 1] - b * c) / d
+
+        entries[:, with_pivot] = [a, b, c, d]
+
+    return entries.T.reshape(batch_shape + (2, 2))
 
 def sl2_to_so21(A):
     r"""Return the image of an element of $\mathrm{SL}(2, \mathbb{R})$
